@@ -4,6 +4,11 @@ import Splipy.Lemmas.C16Quadrature
 import Splipy.Lemmas.C16Vector
 import Splipy.Lemmas.C16Center
 import Splipy.Lemmas.C16Model
+import Splipy.Lemmas.C16Integrate
+import Splipy.Lemmas.C16IntegrateReal
+import Splipy.Lemmas.C16CenterModel
+import Splipy.Lemmas.C16CenterReal
+import Mathlib.Algebra.Order.Archimedean.Real.Basic
 
 /-!
 # Property C16 — lengths, areas, volumes, centres and curvatures are representation independent
@@ -24,9 +29,13 @@ What is PROVED here (kernel-checked, any ordered field unless stated):
   swap.
 * `C16_frenet`, `C16_curvature_torsion_rigid`, `C16_curvature_torsion_scaling`,
   `C16_torsion_scalar_numerator_zero`.
-* `C16_center_equivariance`, `C16_center_equivariance_rational`, `C16_center_integral_mean`.
-* `C16_integrate_entry_spec_partial` — the executable model's `integrate` entry is `intF(t1) − intF(t0)`
-  given C01 for the extended basis.
+* `C16_center_equivariance`, `C16_center_equivariance_rational`, `C16_center_integral_mean`;
+  model level: `C16_center_curve_spec`, `C16_center_curve_is_integral_mean(_periodic)`,
+  `C16_center_surface_is_integral_mean`, `C16_center_curve_rational`, `C16_center_insert_knot_invariant`.
+* `C16_integrate_spec_open`, `C16_integrate_spec_periodic`, `C16_integrate_is_integral(_periodic)` — the
+  EXECUTABLE model `Basis.integrate` (from `Basis.Valid` alone, C01 applied to the proved-valid
+  integration basis) returns `intF(t1) − intF(t0)` per function (periodic: summed over the wrapped
+  images), which over `ℝ` is `∫_{t0}^{t1} B_c` for every sub-interval of the domain.
 
 What is NOT proved (and cannot be an identity): the clauses of the property that are statements
 about the quadrature ERROR —
@@ -38,10 +47,17 @@ about the quadrature ERROR —
   (2) convergence to the analytic values for circles, spheres, cylinders and tori under refinement.
 These are covered by the model-independent oracle of `harness/props/C16.py` only (element-wise error
 budgets against a high-order reference, errors must shrink under `refine`, final error `< 1e-6`);
-C16 is labelled PARTIAL for exactly these clauses.  Also not proved here: that the executable model
-`Basis.integrate` / `Obj.center` / `Obj.lengthData` … of `Model/Measure.lean` computes the
-spec-level expressions below (that link is exercised by the correspondence run, and for
-`Basis.evaluate` proved in `Properties/C01.lean`).
+C16 is labelled PARTIAL for exactly these clauses.
+
+Model ↔ specification links that ARE proved (from `Basis.Valid` alone, via C01 on the proved-valid
+integration basis and C04): `Basis.integrate` (`C16_integrate_spec_open/_periodic`,
+`C16_integrate_is_integral(_periodic)`), `Obj.center` of non-rational curves (non-periodic and periodic), of
+non-rational surfaces on non-periodic bases and (algebraic form) of rational curves
+(`C16_center_curve_spec`, `C16_center_curve_is_integral_mean(_periodic)`,
+`C16_center_surface_is_integral_mean`, `C16_center_curve_rational`, `C16_center_insert_knot_invariant`).
+Links validated by the correspondence run only: `Obj.center` for volumes, rational surfaces and
+surfaces with periodic directions, `Obj.lengthData/areaData/volume`, `curvatureData/torsionData/frenetData` (their
+node-wise algebra is what the `C16_exact_invariances_*` / `C16_frenet` theorems are about).
 -/
 
 open Splipy Splipy.Affine Polynomial
@@ -97,25 +113,6 @@ theorem C16_basis_integrals_sum (s0 s1 : Side) (τ : ℕ → K) (hτ : Monotone 
     ∑ i ∈ Finset.Ico 1 N, (intF s1 τ q N i t1 - intF s0 τ q N i t0) = t1 - t0 :=
   sum_intF_sub s0 s1 τ hτ μ0 μ1 q N hq0 hN0 hq1 hN1 t0 t1 h0 h1
 
-omit [IsStrictOrderedRing K] in
-/-- **Model ↔ specification for `integrate`.**  The executable model's list-comprehension entry
-`Basis.integrateEntry knot p N0 N1 i = (knot[i+p]-knot[i])/p · Σ_{j ≥ i}(N1[j] − N0[j])`
-(`Model/Measure.lean`, `p = q+1`) IS `intF(t1) − intF(t0)` as soon as the two rows hold the values
-of the order-`p+1` B-splines on the extended knots.  That premise is property C01 for the extended
-(non-periodic) basis: `C01_value_deriv_open` in `Properties/C01.lean` proves it for
-`Basis.evaluate`, with the side `effSide` (right, except left at the domain end).
-`_partial`: the premise is taken as hypothesis here instead of being discharged from `Basis.Valid`
-of the extended basis, and the bookkeeping around the entry (`N[1:]`, periodic collapse, clamping
-of `t0`, `t1`) is validated by the correspondence run only. -/
-theorem C16_integrate_entry_spec_partial (knot : Array K) (τ : ℕ → K) (q : ℕ) (N0 N1 : Array K)
-    (i : ℕ) (hi : i ≤ N0.size) (hk0 : knot.getD i 0 = τ i)
-    (hk1 : knot.getD (i + (q+1)) 0 = τ (i+q+1)) (s0 s1 : Side) (t0 t1 : K)
-    (h0 : ∀ j, j < N0.size → N0.getD j 0 = B s0 τ (q+1) j t0)
-    (h1 : ∀ j, j < N0.size → N1.getD j 0 = B s1 τ (q+1) j t1) :
-    Basis.integrateEntry knot (q+1) N0 N1 i
-      = intF s1 τ q N0.size i t1 - intF s0 τ q N0.size i t0 :=
-  integrateEntry_eq_intF knot τ q N0 N1 i hi hk0 hk1 s0 s1 t0 t1 h0 h1
-
 end integrals
 
 /-- **`integrate` is the integral** (`K = ℝ`, Mathlib's interval integral), any sub-interval.
@@ -136,6 +133,172 @@ theorem C16_basis_integral_real (s : Side) (τ : ℕ → ℝ) (hτ : Monotone τ
       ∫ x in a..b, B s τ q i x = intF .left τ q N i b - intF .right τ q N i a :=
   integral_B_eq_intF_multi s τ hτ q N i μ0 a ha ha' k hN b hab hb hm
 
+section integrate_model
+
+variable {K : Type} [Field K] [LinearOrder K] [IsStrictOrderedRing K] [FloorRing K]
+
+/-- **The executable `Basis.integrate` computes `intF(t1) − intF(t0)`, non-periodic basis.**
+Only `Basis.Valid b` is assumed (no hypothesis about evaluated rows: C01 is applied to the
+integration basis `b.aug` = `BSplineBasis(p+1, [k0]+knots+[k_last])`, which is proved valid, and the
+constructor call is proved to succeed).  `t0`, `t1` in the domain and exact for the tolerance
+(knots or at least `tol` away from every knot; cf. `C01_evaluate_snap`).  Result: `num_functions`
+numbers, number `c` being
+`b.intEntry t0 t1 c = intF s1 τ' (p−1) (n+1) (c+1) t1 − intF s0 τ' (p−1) (n+1) (c+1) t0`
+on the extended knots `τ' = b.aug.kn` (`s` = right, except left at the domain end). -/
+theorem C16_integrate_spec_open {b : Basis K} (hv : b.Valid) (hper : b.periodic = -1)
+    {tol t0 t1 : K} (htol : 0 < tol) (hex0 : b.ExactAt tol t0) (hex1 : b.ExactAt tol t1)
+    (h0 : b.start ≤ t0) (h0' : t0 ≤ b.stop) (h1 : b.start ≤ t1) (h1' : t1 ≤ b.stop) :
+    ∃ r, b.integrate tol t0 t1 = .ok r ∧ r.size = b.numFunctions ∧
+      ∀ c, c < b.numFunctions → r.getD c 0 = b.intEntry t0 t1 c :=
+  Basis.integrate_nonperiodic hv hper htol hex0 hex1 h0 h0' h1 h1'
+
+/-- **… periodic basis**: number `c` is the sum of `intEntry i` over all wrapped images
+`i ≡ c (mod num_functions)` ("periodic collapse = sum of images"). -/
+theorem C16_integrate_spec_periodic {b : Basis K} (hv : b.Valid) (hper : 0 ≤ b.periodic)
+    {tol t0 t1 : K} (htol : 0 < tol) (hex0 : b.ExactAt tol t0) (hex1 : b.ExactAt tol t1)
+    (h0 : b.start ≤ t0) (h0' : t0 ≤ b.stop) (h1 : b.start ≤ t1) (h1' : t1 ≤ b.stop) :
+    ∃ r, b.integrate tol t0 t1 = .ok r ∧ r.size = b.numFunctions ∧
+      ∀ c, c < b.numFunctions → r.getD c 0
+        = ∑ i ∈ (Finset.range b.nAll).filter (fun i => i % b.numFunctions = c),
+            b.intEntry t0 t1 i :=
+  Basis.integrate_periodic hv hper htol hex0 hex1 h0 h0' h1 h1'
+
+end integrate_model
+
+/-- **`integrate(t0,t1)[c] = ∫_{t0}^{t1} B_c`** (`K = ℝ`, Mathlib's interval integral; non-periodic
+basis): for every valid basis whose interior knots have multiplicity `≤ order`
+(`Basis.InteriorMultLE`) and every sub-interval `start ≤ t0 < t1 ≤ stop` with exact end points, the
+executable model of `BSplineBasis.integrate` returns exactly the integrals of the basis functions
+(`B s b.kn (p−1) c`, either side `s`). -/
+theorem C16_integrate_is_integral {b : Basis ℝ} (hv : b.Valid) (hper : b.periodic = -1)
+    (hm : b.InteriorMultLE) (s : Side) {tol t0 t1 : ℝ} (htol : 0 < tol)
+    (hex0 : b.ExactAt tol t0) (hex1 : b.ExactAt tol t1)
+    (h0 : b.start ≤ t0) (hlt : t0 < t1) (h1 : t1 ≤ b.stop) :
+    ∃ r, b.integrate tol t0 t1 = .ok r ∧ r.size = b.numFunctions ∧
+      ∀ c, c < b.numFunctions → r.getD c 0 = ∫ x in t0..t1, B s b.kn (b.order - 1) c x := by
+  obtain ⟨r, hr, hs, hg⟩ := Basis.integrate_nonperiodic hv hper htol hex0 hex1 h0
+    (le_trans hlt.le h1) (le_trans h0 hlt.le) h1
+  exact ⟨r, hr, hs, fun c hc => by
+    rw [hg c hc, Basis.intEntry_eq_integral hv hm s c h0 hlt h1]⟩
+
+/-- **… periodic basis**: entry `c` is the sum of the integrals of all images `i ≡ c`, i.e. the
+integral of the periodic basis function number `c` (C01: its value is the sum of the images). -/
+theorem C16_integrate_is_integral_periodic {b : Basis ℝ} (hv : b.Valid) (hper : 0 ≤ b.periodic)
+    (hm : b.InteriorMultLE) (s : Side) {tol t0 t1 : ℝ} (htol : 0 < tol)
+    (hex0 : b.ExactAt tol t0) (hex1 : b.ExactAt tol t1)
+    (h0 : b.start ≤ t0) (hlt : t0 < t1) (h1 : t1 ≤ b.stop) :
+    ∃ r, b.integrate tol t0 t1 = .ok r ∧ r.size = b.numFunctions ∧
+      ∀ c, c < b.numFunctions → r.getD c 0
+        = ∑ i ∈ (Finset.range b.nAll).filter (fun i => i % b.numFunctions = c),
+            ∫ x in t0..t1, B s b.kn (b.order - 1) i x := by
+  obtain ⟨r, hr, hs, hg⟩ := Basis.integrate_periodic hv hper htol hex0 hex1 h0
+    (le_trans hlt.le h1) (le_trans h0 hlt.le) h1
+  refine ⟨r, hr, hs, fun c hc => ?_⟩
+  rw [hg c hc]
+  exact Finset.sum_congr rfl (fun i _ => Basis.intEntry_eq_integral hv hm s i h0 hlt h1)
+
+/-- **The executable `Obj.center` of a non-rational curve** (valid non-periodic basis, control net
+`n × nc`, `start`/`end` exact for the tolerance): component `k` is
+`(Σ_j intEntry(start,end,j)·cps[j][k]) / (end − start)` — `(1/|Ω|)·Σ_j (∫B_j)·P_j`. -/
+theorem C16_center_curve_spec {K : Type} [Field K] [LinearOrder K] [IsStrictOrderedRing K]
+    [FloorRing K] (o : Obj K) (tol : K) (n nc : ℕ) (hsh : o.cps.shape = [n, nc])
+    (hb : o.bases.size = 1) (hrat : o.rational = false) (hv : (o.basis 0).Valid)
+    (hper : (o.basis 0).periodic = -1) (hn : n = (o.basis 0).numFunctions) (htol : 0 < tol)
+    (hexs : (o.basis 0).ExactAt tol (o.basis 0).start)
+    (hexe : (o.basis 0).ExactAt tol (o.basis 0).stop) :
+    ∃ r, o.center tol = .ok r ∧ r.size = nc ∧ ∀ k, k < nc →
+      r.getD k 0 = (∑ j ∈ Finset.range n,
+          (o.basis 0).intEntry (o.basis 0).start (o.basis 0).stop j * o.cps.get (j * nc + k))
+        / ((o.basis 0).stop - (o.basis 0).start) :=
+  Obj.center_curve_intEntry o tol n nc hsh hb hrat hv hper hn htol hexs hexe
+
+/-- **`center()` of a curve is the exact integral mean of the evaluated map** (`K = ℝ`): component
+`k` of the model's result is `(1/|Ω|) ∫_Ω x_k(t) dt` with `x_k = Σ_j cps[j][k]·B_j` the spline the
+curve evaluates (C02).  No quadrature is involved. -/
+theorem C16_center_curve_is_integral_mean (o : Obj ℝ) (tol : ℝ) (n nc : ℕ)
+    (hsh : o.cps.shape = [n, nc]) (hb : o.bases.size = 1) (hrat : o.rational = false)
+    (hv : (o.basis 0).Valid) (hper : (o.basis 0).periodic = -1)
+    (hn : n = (o.basis 0).numFunctions) (hm : (o.basis 0).InteriorMultLE) (htol : 0 < tol)
+    (hexs : (o.basis 0).ExactAt tol (o.basis 0).start)
+    (hexe : (o.basis 0).ExactAt tol (o.basis 0).stop) (s : Side) :
+    ∃ r, o.center tol = .ok r ∧ r.size = nc ∧ ∀ k, k < nc →
+      r.getD k 0 = (∫ x in (o.basis 0).start..(o.basis 0).stop,
+          splineVal s (o.basis 0).kn ((o.basis 0).order - 1) n (fun j => o.cps.get (j * nc + k)) x)
+        / ((o.basis 0).stop - (o.basis 0).start) :=
+  Obj.center_curve_integral_mean o tol n nc hsh hb hrat hv hper hn hm htol hexs hexe s
+
+/-- **… periodic curve**: the integral mean of the periodic spline `Σ_{i<nAll} cps[i mod n]·B_i`
+(the periodic basis function number `c` is the sum of its wrapped images, C01). -/
+theorem C16_center_curve_is_integral_mean_periodic (o : Obj ℝ) (tol : ℝ) (n nc : ℕ)
+    (hsh : o.cps.shape = [n, nc]) (hb : o.bases.size = 1) (hrat : o.rational = false)
+    (hv : (o.basis 0).Valid) (hper : 0 ≤ (o.basis 0).periodic)
+    (hn : n = (o.basis 0).numFunctions) (hm : (o.basis 0).InteriorMultLE) (htol : 0 < tol)
+    (hexs : (o.basis 0).ExactAt tol (o.basis 0).start)
+    (hexe : (o.basis 0).ExactAt tol (o.basis 0).stop) (s : Side) :
+    ∃ r, o.center tol = .ok r ∧ r.size = nc ∧ ∀ k, k < nc →
+      r.getD k 0 = (∫ x in (o.basis 0).start..(o.basis 0).stop,
+          splineVal s (o.basis 0).kn ((o.basis 0).order - 1) (o.basis 0).nAll
+            (fun i => o.cps.get ((i % n) * nc + k)) x)
+        / ((o.basis 0).stop - (o.basis 0).start) :=
+  Obj.center_curve_integral_mean_periodic o tol n nc hsh hb hrat hv hper hn hm htol hexs hexe s
+
+/-- **`center()` of a non-rational SURFACE is the exact integral mean** (`K = ℝ`, both directions
+valid and non-periodic): component `k` is
+`(1/|Ω|) ∫∫_Ω Σ_a Σ_j cps[a][j][k]·B_a(u)·B_j(v) dv du`. -/
+theorem C16_center_surface_is_integral_mean (o : Obj ℝ) (tol : ℝ) (n1 n2 nc : ℕ)
+    (hsh : o.cps.shape = [n1, n2, nc]) (hb : o.bases.size = 2) (hrat : o.rational = false)
+    (hv0 : (o.basis 0).Valid) (hv1 : (o.basis 1).Valid)
+    (hper0 : (o.basis 0).periodic = -1) (hper1 : (o.basis 1).periodic = -1)
+    (hn1 : n1 = (o.basis 0).numFunctions) (hn2 : n2 = (o.basis 1).numFunctions)
+    (hm0 : (o.basis 0).InteriorMultLE) (hm1 : (o.basis 1).InteriorMultLE) (htol : 0 < tol)
+    (hexs0 : (o.basis 0).ExactAt tol (o.basis 0).start)
+    (hexe0 : (o.basis 0).ExactAt tol (o.basis 0).stop)
+    (hexs1 : (o.basis 1).ExactAt tol (o.basis 1).start)
+    (hexe1 : (o.basis 1).ExactAt tol (o.basis 1).stop) (s : Side) :
+    ∃ r, o.center tol = .ok r ∧ r.size = nc ∧ ∀ k, k < nc →
+      r.getD k 0 = (∫ u in (o.basis 0).start..(o.basis 0).stop,
+          ∫ v in (o.basis 1).start..(o.basis 1).stop,
+            ∑ a ∈ Finset.range n1, ∑ j ∈ Finset.range n2,
+              o.cps.get ((a * n2 + j) * nc + k) * B s (o.basis 0).kn ((o.basis 0).order - 1) a u
+                * B s (o.basis 1).kn ((o.basis 1).order - 1) j v)
+        / (((o.basis 0).stop - (o.basis 0).start) * ((o.basis 1).stop - (o.basis 1).start)) :=
+  Obj.center_surface_integral_mean o tol n1 n2 nc hsh hb hrat hv0 hv1 hper0 hper1 hn1 hn2 hm0 hm1
+    htol hexs0 hexe0 hexs1 hexe1 s
+
+/-- **`center()` of a RATIONAL curve** (model level, any ordered field): with
+`N = basis.integrate(start,end)` and `S_k = Σ_j N_j·cps[j][k]` on the homogeneous control net, the
+result is the projective centre `(S_k/|Ω|)/(S_w/|Ω|)` — "integrate in projective coordinates, then
+project", as the docstring of `SplineObject.center` says. -/
+theorem C16_center_curve_rational {K : Type} [Field K] [LinearOrder K] [FloorRing K]
+    (o : Obj K) (tol : K) (n nc : ℕ) (hsh : o.cps.shape = [n, nc]) (hnc : 1 ≤ nc)
+    (hb : o.bases.size = 1) (hrat : o.rational = true) (N : Array K)
+    (hN : (o.basis 0).integrate tol (o.basis 0).start (o.basis 0).stop = .ok N) :
+    ∃ r, o.center tol = .ok r ∧ r.size = nc - 1 ∧ ∀ k, k < nc - 1 →
+      r.getD k 0 = ((∑ j ∈ Finset.range n, N.getD j 0 * o.cps.get (j * nc + k))
+          / ((o.basis 0).stop - (o.basis 0).start))
+        / ((∑ j ∈ Finset.range n, N.getD j 0 * o.cps.get (j * nc + (nc - 1)))
+          / ((o.basis 0).stop - (o.basis 0).start)) :=
+  Obj.center_curve_rational o tol n nc hsh hnc hb hrat N hN
+
+/-- **`center()` is invariant under knot insertion** (model level, `K = ℝ`, non-rational curve):
+if `o' = o.insert_knot(xs)` (any list of values of `[start, end)`, `Obj.insertKnots`) then
+`o'.center() = o.center()` — both are the integral mean of the same function (C04: `C04_object`,
+`C04_curve`) over the same domain.  Side conditions: the refined knot vector still has interior
+multiplicities `≤ order`, and `start`/`end` are exact for the tolerance in both knot vectors. -/
+theorem C16_center_insert_knot_invariant (o : Obj ℝ) (tol : ℝ) (n nc : ℕ)
+    (hsh : o.cps.shape = [n, nc]) (hb : o.bases.size = 1) (hrat : o.rational = false)
+    (hv : (o.basis 0).Valid) (hper : (o.basis 0).periodic = -1)
+    (hn : n = (o.basis 0).numFunctions) (hm : (o.basis 0).InteriorMultLE) (htol : 0 < tol)
+    (hexs : (o.basis 0).ExactAt tol (o.basis 0).start)
+    (hexe : (o.basis 0).ExactAt tol (o.basis 0).stop)
+    (xs : List ℝ) (hxs : ∀ x ∈ xs, (o.basis 0).start ≤ x ∧ x < (o.basis 0).stop)
+    (o' : Obj ℝ) (ho' : o.insertKnots xs 0 = .ok o') (hm' : (o'.basis 0).InteriorMultLE)
+    (hexs' : (o'.basis 0).ExactAt tol (o'.basis 0).start)
+    (hexe' : (o'.basis 0).ExactAt tol (o'.basis 0).stop) :
+    o'.center tol = o.center tol :=
+  Obj.center_insertKnots o tol n nc hsh hb hrat hv hper hn hm htol hexs hexe xs hxs o' ho' hm'
+    hexs' hexe'
+
 section quadrature
 
 variable {K : Type} [Field K] [CharZero K]
@@ -143,8 +306,8 @@ variable {K : Type} [Field K] [CharZero K]
 /-- **Composite quadrature is exact for piecewise polynomials.**  Hypothesis `RuleExact x w D`:
 the rule `(x_i, w_i)_{i<m}` integrates the monomials `X^k`, `k ≤ D`, exactly over `[-1,1]`
 (`Σ w_i x_i^k · (k+1) = 1 − (−1)^(k+1)`); for the `m`-point Gauss–Legendre rule `D = 2m−1`
-(taken as hypothesis: the nodes are irrational; `ruleExact_gauss2` proves it for `m = 2` in any field
-with a root of `1/3`, `ruleExact_midpoint` for `m = 1`).  Conclusion: the rule mapped to the spans
+(taken as hypothesis: the nodes are irrational; proved for `m = 1` (`ruleExact_midpoint`), `m = 2`
+(`ruleExact_gauss2`, any field with a root of `1/3`) and `m = 3` (`ruleExact_gauss3`, root of `3/5`)).  Conclusion: the rule mapped to the spans
 `[k_j, k_{j+1}]`, `j < n`, exactly as `Curve.length` / `Surface.area` / `Volume.volume` map it
 (`t = (x+1)/2·(k_{j+1}−k_j)+k_j`, `w' = w/2·(k_{j+1}−k_j)`), applied to an integrand that is on span
 `j` a polynomial `(Q j)'` of degree `≤ D`, returns `Σ_j (Q_j(k_{j+1}) − Q_j(k_j))` — the integral,
@@ -189,6 +352,29 @@ theorem C16_quadrature_exact_tensor3 {m1 m2 m3 : ℕ} {x1 w1 : Fin m1 → K} {x2
       = ∑ c ∈ s, ((P c).eval b1 - (P c).eval a1) * ((R c).eval b2 - (R c).eval a2)
                    * ((T c).eval b3 - (T c).eval a3) :=
   h1.tensor3 h2 h3 a1 b1 a2 b2 a3 b3 s P R T hP hR hT
+
+/-- **The rule the code really uses in a direction of order 2** (`leggauss(3)`: nodes `0, ±√(3/5)`,
+weights `8/9, 5/9`; `r` any square root of `3/5`) is exact on every element for all trivariate
+polynomials of degree `≤ 5` per direction.  The Jacobian determinant of a non-rational tri-LINEAR
+volume (all orders 2) has degree `3·2 − 4 = 2` per direction: `Volume.volume()` of such a volume is
+exact element by element wherever the Jacobian keeps one sign.  (Same statement for the area of a
+planar bilinear surface with `C16_quadrature_exact_tensor2`; `ruleExact_gauss2` is `leggauss(2)`.) -/
+theorem C16_volume_rule_exact_order2 {r : K} (hr : r * r = 3 / 5) (a1 b1 a2 b2 a3 b3 : K)
+    {ι : Type} (s : Finset ι) (P R T : ι → K[X])
+    (hP : ∀ c ∈ s, (derivative (P c)).natDegree ≤ 5)
+    (hR : ∀ c ∈ s, (derivative (R c)).natDegree ≤ 5)
+    (hT : ∀ c ∈ s, (derivative (T c)).natDegree ≤ 5) :
+    let x : Fin 3 → K := ![-r, 0, r]
+    let w : Fin 3 → K := ![5/9, 8/9, 5/9]
+    ∑ i, ∑ j, ∑ l, (w i / 2 * (b1 - a1)) * (w j / 2 * (b2 - a2)) * (w l / 2 * (b3 - a3)) *
+        ∑ c ∈ s, (derivative (P c)).eval ((x i + 1) / 2 * (b1 - a1) + a1)
+                 * (derivative (R c)).eval ((x j + 1) / 2 * (b2 - a2) + a2)
+                 * (derivative (T c)).eval ((x l + 1) / 2 * (b3 - a3) + a3)
+      = ∑ c ∈ s, ((P c).eval b1 - (P c).eval a1) * ((R c).eval b2 - (R c).eval a2)
+                   * ((T c).eval b3 - (T c).eval a3) := by
+  intro x w
+  have h := ruleExact_gauss3 r hr
+  exact h.tensor3 h h a1 b1 a2 b2 a3 b3 s P R T hP hR hT
 
 end quadrature
 
@@ -420,6 +606,91 @@ example : ∫ x in (7/2 : ℝ)..(11/2), B .right (fun n : ℕ => (n : ℝ)) 2 1 
   (C16_basis_integral_real .right (fun n : ℕ => (n : ℝ)) (fun _ _ h => Nat.cast_le.mpr h) 2 9 1 3
     (7/2) (by norm_num) (by norm_num) 2 (by norm_num) (11/2) (by norm_num) (by norm_num)
     (fun ξ _ _ j hj => by rw [← hj]; push_cast; linarith)).2
+
+/-- `C16_integrate_spec_open` on the open quadratic basis of C01 (double interior knot), interval
+`[1/2, 3]` reaching the domain end. -/
+example : ∃ r, C01_exOpen.integrate (1/1000) (1/2) 3 = .ok r ∧ r.size = C01_exOpen.numFunctions ∧
+    ∀ c, c < C01_exOpen.numFunctions → r.getD c 0 = C01_exOpen.intEntry (1/2) 3 c :=
+  C16_integrate_spec_open C01_exOpen_valid rfl (by norm_num) C01_exOpen_exact_half
+    C01_exOpen_exact_stop (by rw [C01_exOpen_start]; norm_num) (by rw [C01_exOpen_stop]; norm_num)
+    (by rw [C01_exOpen_start]; norm_num) (by rw [C01_exOpen_stop])
+
+/-- `C16_integrate_spec_periodic` on the periodic quadratic basis of C01, interval `[0, 1/2]`. -/
+example : ∃ r, C01_exPer.integrate (1/1000) 0 (1/2) = .ok r ∧ r.size = C01_exPer.numFunctions ∧
+    ∀ c, c < C01_exPer.numFunctions → r.getD c 0
+      = ∑ i ∈ (Finset.range C01_exPer.nAll).filter (fun i => i % C01_exPer.numFunctions = c),
+          C01_exPer.intEntry 0 (1/2) i :=
+  C16_integrate_spec_periodic C01_exPer_valid (by decide) (by norm_num) C01_exPer_exact_zero
+    C01_exPer_exact_half (by rw [C01_exPer_start]) (by rw [C01_exPer_stop]; norm_num)
+    (by rw [C01_exPer_start]; norm_num) (by rw [C01_exPer_stop]; norm_num)
+
+/-- A real basis meeting the hypotheses of `C16_integrate_is_integral`: the linear Bernstein basis. -/
+noncomputable def C16_exReal : Basis ℝ := ⟨2, #[0, 0, 1, 1], -1⟩
+
+theorem C16_exReal_kn (i : ℕ) : C16_exReal.kn i = if i < 2 then 0 else 1 := by
+  rcases Nat.lt_or_ge i 4 with h | h
+  · interval_cases i <;> norm_num [Basis.kn, C16_exReal]
+  · rw [C16_exReal.kn_of_ge (by simpa [C16_exReal] using h), if_neg (by omega)]
+    norm_num [Basis.kn, C16_exReal]
+
+theorem C16_exReal_valid : C16_exReal.Valid where
+  order_pos := by decide
+  size_ge := by decide
+  sorted := by
+    intro i _
+    rw [C16_exReal_kn, C16_exReal_kn]
+    split_ifs <;> first | omega | norm_num
+  periodic_ge := by decide
+  periodic_le := Or.inr rfl
+  start_lt_stop := by
+    unfold Basis.start Basis.stop
+    rw [C16_exReal_kn, C16_exReal_kn]
+    norm_num [C16_exReal]
+  ghosts := fun h => absurd h (by decide)
+
+theorem C16_exReal_mult : C16_exReal.InteriorMultLE := by
+  intro ξ h1 h2 j hj
+  exfalso
+  unfold Basis.start at h1
+  unfold Basis.stop at h2
+  rw [C16_exReal_kn] at h1 h2 hj
+  norm_num [C16_exReal] at h1 h2
+  split_ifs at hj <;> linarith
+
+/-- `C16_integrate_is_integral` on `[0,1]`: the model returns `∫_0^1 B_c` for both functions. -/
+example : ∃ r, C16_exReal.integrate (1/1000) 0 1 = .ok r ∧ r.size = C16_exReal.numFunctions ∧
+    ∀ c, c < C16_exReal.numFunctions →
+      r.getD c 0 = ∫ x in (0:ℝ)..1, B .right C16_exReal.kn (C16_exReal.order - 1) c x := by
+  have hex : ∀ t : ℝ, (t = 0 ∨ t = 1) → C16_exReal.ExactAt (1/1000) t := by
+    intro t ht i _
+    rw [C16_exReal_kn]
+    rcases ht with rfl | rfl <;> split_ifs <;> norm_num
+  have hs : C16_exReal.start = 0 := by unfold Basis.start; rw [C16_exReal_kn]; norm_num [C16_exReal]
+  have he : C16_exReal.stop = 1 := by unfold Basis.stop; rw [C16_exReal_kn]; norm_num [C16_exReal]
+  exact C16_integrate_is_integral C16_exReal_valid rfl C16_exReal_mult .right (by norm_num)
+    (hex 0 (Or.inl rfl)) (hex 1 (Or.inr rfl)) (by rw [hs]) (by norm_num) (by rw [he])
+
+/-- The straight segment from `(0,0)` to `(1,2)` as a curve over `C16_exReal`. -/
+noncomputable def C16_exCurve : Obj ℝ :=
+  { bases := #[C16_exReal], cps := { shape := [2, 2], data := #[0, 0, 1, 2] }, rational := false }
+
+/-- `C16_center_curve_is_integral_mean` applies to it: the model's centre is the integral mean. -/
+example : ∃ r, C16_exCurve.center (1/1000) = .ok r ∧ r.size = 2 ∧ ∀ k, k < 2 →
+    r.getD k 0 = (∫ x in C16_exReal.start..C16_exReal.stop,
+        splineVal .right C16_exReal.kn (C16_exReal.order - 1) 2
+          (fun j => C16_exCurve.cps.get (j * 2 + k)) x) / (C16_exReal.stop - C16_exReal.start) := by
+  have hex : ∀ t : ℝ, (t = 0 ∨ t = 1) → C16_exReal.ExactAt (1/1000) t := by
+    intro t ht i _
+    rw [C16_exReal_kn]
+    rcases ht with rfl | rfl <;> split_ifs <;> norm_num
+  have hs : C16_exReal.start = 0 := by unfold Basis.start; rw [C16_exReal_kn]; norm_num [C16_exReal]
+  have he : C16_exReal.stop = 1 := by unfold Basis.stop; rw [C16_exReal_kn]; norm_num [C16_exReal]
+  have hb0 : C16_exCurve.basis 0 = C16_exReal := rfl
+  have := C16_center_curve_is_integral_mean C16_exCurve (1/1000) 2 2 rfl rfl rfl
+    (by rw [hb0]; exact C16_exReal_valid) (by rw [hb0]; rfl) (by rw [hb0]; rfl)
+    (by rw [hb0]; exact C16_exReal_mult) (by norm_num)
+    (by rw [hb0, hs]; exact hex 0 (Or.inl rfl)) (by rw [hb0, he]; exact hex 1 (Or.inr rfl)) .right
+  rwa [hb0] at this
 
 /-- Rules satisfying `RuleExact`: midpoint = 1-point Gauss–Legendre (`D = 1`), Simpson (`D = 3`);
 `ruleExact_gauss2` gives the 2-point Gauss–Legendre rule in any field with a root of `1/3`. -/
